@@ -222,6 +222,21 @@ def accepted_silently(ctx, path):
 
 def check_program(ctx, src, name="p.nano"):
     """Returns (domain, problems[list of (engine, detail, brief)])"""
+    if src.startswith("# BUNDLE"):
+        # two-file replay (main program + module), format of pbt/c01_backends.py
+        from . import c01_backends
+        import shutil
+        d = os.path.join(ctx.dir, "two_" + name.replace(".nano", ""))
+        shutil.rmtree(d, ignore_errors=True)
+        os.makedirs(d)
+        main_text, mod_text = c01_backends.unbundle(src)
+        runner.write_src(d, "m.nano", mod_text)
+        p = runner.write_src(d, "p.nano", main_text)
+        saved_dir, ctx.dir = ctx.dir, d
+        try:
+            return check_program(ctx, main_text, "p.nano")
+        finally:
+            ctx.dir = saved_dir
     p = runner.write_src(ctx.dir, name, src)
     acc, stage, err = accepted_silently(ctx, p)
     if acc is None:
